@@ -25,6 +25,8 @@ func init() {
 			{ID: "R01c", Floor: 7, Doc: "header siblings share one encoding; CarHeader structs identical", Run: ruleR01c},
 			{ID: "R01d", Floor: 2, Doc: "v2 payload window of the block reader (= R14a)", Run: ruleR14a},
 			{ID: "R01e", Floor: 4, Doc: "loaders store every block read", Run: ruleR01e},
+			{ID: "R01g", Floor: 9, Doc: "verifying readers accept exactly the blocks whose bytes hash to their CID under the CID's own prefix (= R02a): a reader that rejects valid blocks breaks the round trip", Run: ruleR02a},
+			{ID: "R01h", Floor: 2, Doc: "index generation records true section offsets (= R03b)", Run: ruleR03b},
 			{ID: "R01f", Floor: 1, Doc: "PutMany decides and inserts block by block", Run: ruleR01f},
 		},
 	})
@@ -137,6 +139,37 @@ func lenSumPhi(fn *ssa.Function, d *ssa.Parameter) *ssa.Phi {
 	return found
 }
 
+// partsSum returns the value in fn that is S = sum of len(part) over the variadic
+// parameter d: the accumulator phi of an in-line loop, or the result of a
+// same-package helper that computes exactly that over the slice it is handed.
+func partsSum(fn *ssa.Function, d *ssa.Parameter) ssa.Value {
+	if phi := lenSumPhi(fn, d); phi != nil {
+		return phi
+	}
+	var out ssa.Value
+	eachInstr(fn, func(in ssa.Instruction) {
+		ci, ok := in.(*ssa.Call)
+		if !ok || out != nil {
+			return
+		}
+		h := ci.Common().StaticCallee()
+		if h == nil || h.Blocks == nil || h.Pkg != fn.Pkg || len(h.Params) != 1 || len(ci.Call.Args) != 1 || canon(ci.Call.Args[0]) != ssa.Value(d) {
+			return
+		}
+		hp := lenSumPhi(h, h.Params[0])
+		if hp == nil {
+			return
+		}
+		for _, ret := range returnsOf(h) {
+			if len(ret.Results) != 1 || canon(ret.Results[0]) != ssa.Value(hp) {
+				return
+			}
+		}
+		out = ci
+	})
+	return out
+}
+
 func ruleR01b(c *Ctx, r *Report) {
 	for _, mod := range []string{pkgV1Util, pkgRootUtil} {
 		// ---- LdSize
@@ -145,12 +178,12 @@ func ruleR01b(c *Ctx, r *Report) {
 		} else {
 			key := "framing@" + fnKey(fn)
 			bad := ""
-			sum := lenSumPhi(fn, fn.Params[0])
+			sum := partsSum(fn, fn.Params[0])
 			if sum == nil {
 				bad = "S = sum of len(part) accumulator not recognised"
 			} else {
 				env := &AffEnv{name: func(v ssa.Value) string {
-					if v == ssa.Value(sum) {
+					if canon(v) == sum {
 						return "S"
 					}
 					return ""
@@ -170,7 +203,7 @@ func ruleR01b(c *Ctx, r *Report) {
 		} else {
 			key := "framing@" + fnKey(fn)
 			bad := ""
-			sum := lenSumPhi(fn, fn.Params[1])
+			sum := partsSum(fn, fn.Params[1])
 			var writes []*ssa.Call
 			eachInstr(fn, func(in ssa.Instruction) {
 				if ci, ok := in.(*ssa.Call); ok && ci.Common().IsInvoke() && ci.Common().Method.Name() == "Write" {
@@ -189,7 +222,7 @@ func ruleR01b(c *Ctx, r *Report) {
 					bad = "the first write is not buf[:n]"
 				} else {
 					pc, _ := callOf(canon(sl.High))
-					if pc == nil || calleeFunc(pc.Common()) == nil || calleeFunc(pc.Common()).Name() != "PutUvarint" || canon(pc.Call.Args[1]) != ssa.Value(sum) || !sameValue(pc.Call.Args[0], sl.X) && !sameSliceBase(pc.Call.Args[0], sl.X) {
+					if pc == nil || calleeFunc(pc.Common()) == nil || calleeFunc(pc.Common()).Name() != "PutUvarint" || canon(pc.Call.Args[1]) != sum || !sameValue(pc.Call.Args[0], sl.X) && !sameSliceBase(pc.Call.Args[0], sl.X) {
 						bad = "the length prefix is not the uvarint of S (sum of the part lengths)"
 					}
 				}
